@@ -382,7 +382,7 @@ fn c09_one(ctx: &Ctx, c: &C09Case, seed: u64) {
         let (hash, decisions, cross, prewarm_hits, late, rewrites, ops, confl) = st_src.with_state(|st| (st.trace_hash, st.decisions.clone(), st.cross_task_hits, st.prewarmed_hits, st.late_arrivals, st.rewrites_different, st.writes + st.misses + st.own_hits + st.cross_task_hits + st.prewarmed_hits, st.conflicts.clone()));
         ctx.count(if controlled { "controlled_schedules_run" } else { "free_running_stress_runs" }, 1);
         ctx.count(&format!("runs_on_pool_of_{}", pool), 1);
-        if controlled { ctx.count(&format!("runs_with_strategy_{:?}", strategy).replace(['(', ')'], "_"), 1); }
+        if controlled { ctx.count(&format!("runs_with_strategy_{}", format!("{:?}", strategy).split('(').next().unwrap_or("")), 1); }
         ctx.count("cache_operations_observed", ops);
         ctx.count("cross_task_cache_hits_observed", cross);
         ctx.count("prewarmed_cache_hits_observed", prewarm_hits);
@@ -414,9 +414,44 @@ fn c09_one(ctx: &Ctx, c: &C09Case, seed: u64) {
     }
 }
 
+/// Small free-running workload for the ThreadSanitizer build (thorough tier): the sanitizer is the
+/// oracle for data races; answers are still compared with the one-thread baseline.
+fn c09_sanitizer_leg(o: &Opts) -> i32 {
+    let mut r = Rng::new(o.seed).fork(tag("c09-tsan"));
+    let all: Vec<Pos> = search_positions(o.seed, 6, 2, 20).into_iter().map(|x| x.0).filter(|p| p.legal_moves().len() >= 3 && p.legal_moves().len() <= 30).collect();
+    let mut searches = 0; let mut diverged = 0;
+    for i in 0..3 {
+        let p = r.pick(&all).clone();
+        let warm: Vec<Pos> = if i % 2 == 1 { vec![r.pick(&all).clone()] } else { vec![] };
+        let (mut sc0, mut g0) = build_context(2, &warm);
+        let one = mon::pool_with_session(1, None);
+        let mut b0 = to_engine(&p);
+        let base = match one.install(|| alpha_beta_search(&mut sc0, &mut b0, &mut g0)) { Ok(m) => (ekey(&m), sc0.last_score()), Err(_) => continue };
+        for pool in [2usize, 4, 16] {
+            let (mut sc, mut g) = build_context(2, &warm);
+            let stress = Stress::new(r.next_u64(), 30);
+            let tp = mon::pool_with_session(pool, Some(stress.clone() as Arc<dyn SearchSink>));
+            let mut b = to_engine(&p);
+            if let Ok(m) = tp.install(|| alpha_beta_search(&mut sc, &mut b, &mut g)) { searches += 1; if (ekey(&m), sc.last_score()) != base { diverged += 1; println!("SANITIZER-LEG divergence on {} pool {}", p.to_fen(), pool); } }
+        }
+    }
+    println!("SANITIZER-LEG searches={} diverged={}", searches, diverged);
+    if diverged > 0 { 1 } else { 0 }
+}
+
 pub fn c09(o: &Opts) -> i32 {
+    if o.part.as_deref() == Some("sanitizer") { return c09_sanitizer_leg(o); }
     let ctx = default_ctx("C09", o, 150.0, 900.0);
     let q = ctx.quick();
+    // result of the ThreadSanitizer leg, run by ./check before this process (thorough tier)
+    if let Ok(n) = std::env::var("VERIF_TSAN_REPORTS") {
+        let n: u64 = n.parse().unwrap_or(0);
+        let searches: u64 = std::env::var("VERIF_TSAN_SEARCHES").ok().and_then(|s| s.parse().ok()).unwrap_or(0);
+        ctx.count("tsan_searches_run", searches); ctx.count("tsan_reports", n);
+        ctx.set_extra("thread_sanitizer", json!({"searches": searches, "reports": n, "log": std::env::var("VERIF_TSAN_LOG").unwrap_or_default()}));
+        if n > 0 { ctx.violation("c09:thread-sanitizer-report", &format!("ThreadSanitizer reported {} data race(s) during {} parallel searches (log: {})", n, searches, std::env::var("VERIF_TSAN_LOG").unwrap_or_default()), json!({"log": std::env::var("VERIF_TSAN_LOG").unwrap_or_default()})); }
+        else if searches == 0 { ctx.inconclusive("the ThreadSanitizer leg ran no search"); }
+    }
     let mut r = Rng::new(o.seed).fork(tag("c09"));
     let all: Vec<Pos> = search_positions(o.seed, if q { 30 } else { 200 }, 10, 28).into_iter().map(|x| x.0).filter(|p| p.legal_moves().len() >= 3 && p.legal_moves().len() <= 48).collect();
     let mut cases = vec![];
